@@ -41,6 +41,7 @@ Fails(ev, s) ==
                \cup Bad(~(ev.op \in {"Add", "Remove"}) \/ (ev.ret = 1) = r.ret, "C08",
                    "mutating call misreports whether it changed the set")
                \cup Bad(ev.op # "Codec" \/ ev.ret > 0, "C08", "deserialising the object's own serialisation failed")
+               \cup Bad(ev.op # "AsRuns" \/ ev.ret >= 0, "C08", "a valid run-container serialisation of the set was refused")
                \cup Observers(ev, r.set)
                \cup Bad(~(ev.op \in Binary) \/ (AsIvs(ev.k_ivs) = Operands[ev.k] /\ ev.k_n = Size(Operands[ev.k])),
                         "C08", "binary operation modified its second operand")
